@@ -10,7 +10,8 @@ PROP = {
             "constant over the frame, which is what C15 quantifies over); WX=0/166 hardware glitches are outside the reference.",
     "technique": "Lean 4 proofs (kernel enumeration for bit tricks, loop invariants for sweep and pixel pipeline) + "
                  "three-way differential correspondence on full frames",
-    "streams": [{"name": "c15", "shards": {"quick": 4, "thorough": 16}}],
+    "streams": [{"name": "c15", "shards": {"quick": 4, "thorough": 16}},
+                {"name": "c15.seq", "shards": {"quick": 4, "thorough": 16}}],
     "modules": ["GbVerif.Model.Tile", "GbVerif.Model.Ppu", "GbVerif.Spec.Bits", "GbVerif.Spec.Frame", "GbVerif.Proofs.Enum", "GbVerif.Proofs.PpuInterleave",
                 "GbVerif.Proofs.PpuBits", "GbVerif.Proofs.PpuObj", "GbVerif.Proofs.PpuSel", "GbVerif.Proofs.PpuLine", "GbVerif.Proofs.PpuFrame", "GbVerif.Proofs.NatBits"],
     "exhaustive": False,
